@@ -32,14 +32,26 @@ sys.exit(1 if missing else 0)
 PY
 cp -r "$SRC/demo" "$S/demo"
 cd "$S/demo"
+if [ -f demo.sh ]; then
+  # machinery demo: demo.sh <source tree> <gopherjs binary>; clean tree = a second scratch worktree
+  WT2=$(mktemp -d /tmp/seedwt.XXXXXX); rmdir "$WT2"
+  git -C /repo worktree add -q --detach "$WT2" HEAD || exit 2
+  echo "(script demo: no native reference)" > "$S/native.txt"
+  timeout 300 bash demo.sh "$WT2" "$S/gopherjs.clean" 2>&1 | head -c 200000 > "$S/clean.txt"
+  timeout 300 bash demo.sh "$WT2" "$S/gopherjs.clean" 2>&1 | head -c 200000 > "$S/clean2.txt"
+  timeout 300 bash demo.sh "$WT" "$S/gopherjs.mut" 2>&1 | head -c 200000 > "$S/mut.txt"
+  git -C /repo worktree remove --force "$WT2" >/dev/null 2>&1; rm -rf "$WT2"
+  cmp -s "$S/clean.txt" "$S/clean2.txt" || { echo "$ID: DEMO SCRIPT IS NOT DETERMINISTIC on the clean tree"; exit 5; }
+else
 go run . > "$S/native.txt" 2>&1
 "$S/gopherjs.clean" build -o out_clean.js . >/dev/null 2>"$S/clean.err" && timeout 60 node out_clean.js > "$S/clean.txt" 2>&1
 "$S/gopherjs.mut" build -o out_mut.js . >/dev/null 2>"$S/mut.err" && timeout 60 node out_mut.js 2>&1 | head -c 200000 > "$S/mut.txt"
+fi
 # println goes to stderr natively, console.log in JS: compare merged streams
 if cmp -s "$S/clean.txt" "$S/mut.txt"; then echo "$ID: DEMO DOES NOT DISTINGUISH clean from changed"; exit 5; fi
 NATIVE_EQ=no; cmp -s "$S/native.txt" "$S/clean.txt" && NATIVE_EQ=yes
 D="/verif/seeded/$ID"; rm -rf "$D"; mkdir -p "$D/demo"
-cp "$SRC/patch.diff" "$D/patch.diff"; cp "$SRC"/demo/*.go "$SRC"/demo/go.mod "$D/demo/" 2>/dev/null
+cp "$SRC/patch.diff" "$D/patch.diff"; cp -r "$SRC"/demo/. "$D/demo/" 2>/dev/null; rm -f "$D"/demo/*.js "$D"/demo/*.map
 cp "$S/clean.txt" "$D/demo/expected.txt"; cp "$S/mut.txt" "$D/demo/actual.txt"
 python3 - "$D" "$ID" "$PROP" "$NEEDS" "$NATIVE_EQ" "$SRC" <<'PY'
 import json,sys,os
